@@ -12,7 +12,7 @@ From Coq Require Import Permutation.
 (* ==================================================================================== *)
 (** * C. association lists: model functions versus reference functions *)
 
-Definition keys {V} (c : list (bytes * V)) : list bytes := map fst c.
+Notation keys c := (map fst c).
 
 Section Assoc.
   Context {V : Type}.
@@ -122,7 +122,7 @@ Section Assoc.
   (* keys, NoDup and value invariants *)
   Lemma keys_insert x k v c : In x (keys (im_insert k v c)) -> x = k \/ In x (keys c).
   Proof.
-    induction c as [|[k' v'] c IH]; simpl; [tauto|].
+    induction c as [|[k' v'] c IH]; simpl; [intuition congruence|].
     destruct (bytes_eqb k' k) eqn:E; simpl; [tauto|]. intros [H|H]; [tauto|]. apply IH in H. tauto.
   Qed.
 
@@ -165,7 +165,7 @@ Section Assoc.
 
   Lemma NoDup_sort le c : NoDup (keys c) -> NoDup (keys (im_sort_by le c)).
   Proof.
-    intro H. rewrite im_sort_by_eq. unfold keys.
+    intro H. rewrite im_sort_by_eq.
     eapply Permutation_NoDup; [|exact H]. apply Permutation_map. symmetry. apply stable_sort_perm.
   Qed.
 
@@ -214,7 +214,14 @@ End Assoc.
 
 Definition keep (kv : bytes * item) : option (bytes * pay) :=
   match snd kv with IReal p => Some (fst kv, p) | INone => None end.
-Definition abs (c : imap item) : omap pay := pmap keep c.
+Fixpoint abs (c : imap item) : omap pay :=
+  match c with
+  | [] => []
+  | (k, IReal p) :: c' => (k, p) :: abs c'
+  | (_, INone) :: c' => abs c'
+  end.
+Lemma abs_pmap c : abs c = pmap keep c.
+Proof. induction c as [|[k [|p]] c IH]; simpl; [reflexivity|exact IH|]. unfold keep at 1; simpl. f_equal. exact IH. Qed.
 
 Lemma abs_cons_real k p c : abs ((k, IReal p) :: c) = (k, p) :: abs c.
 Proof. reflexivity. Qed.
@@ -224,15 +231,15 @@ Proof. reflexivity. Qed.
 Lemma abs_keys x c : In x (keys (abs c)) -> In x (keys c).
 Proof.
   induction c as [|[k [|p]] c IH]; simpl; [tauto| |].
-  - rewrite abs_cons_none. auto.
-  - rewrite abs_cons_real. simpl. intros [H|H]; auto.
+  - rewrite ?abs_cons_none. auto.
+  - rewrite ?abs_cons_real. simpl. intros [H|H]; auto.
 Qed.
 
 Lemma abs_NoDup c : NoDup (keys c) -> NoDup (keys (abs c)).
 Proof.
   induction c as [|[k [|p]] c IH]; simpl; intro H; [constructor| |]; inversion H; subst.
-  - rewrite abs_cons_none. auto.
-  - rewrite abs_cons_real. simpl. constructor; [|auto]. intro Hin. apply abs_keys in Hin. tauto.
+  - rewrite ?abs_cons_none. auto.
+  - rewrite ?abs_cons_real. simpl. constructor; [|auto]. intro Hin. apply abs_keys in Hin. tauto.
 Qed.
 
 Lemma abs_get k c :
@@ -240,9 +247,9 @@ Lemma abs_get k c :
   im_get k (abs c) = match im_get k c with Some (IReal p) => Some p | _ => None end.
 Proof.
   induction c as [|[k' [|p]] c IH]; simpl; intro H; [reflexivity| |]; inversion H as [|? ? Hn Hc]; subst.
-  - rewrite abs_cons_none. destruct (bytes_eqb k' k) eqn:E; [|auto].
+  - rewrite ?abs_cons_none. destruct (bytes_eqb k' k) eqn:E; [|auto].
     apply bytes_eqb_eq in E. subst. apply im_get_notin. intro Hin. apply abs_keys in Hin. tauto.
-  - rewrite abs_cons_real. simpl. destruct (bytes_eqb k' k); [reflexivity|auto].
+  - rewrite ?abs_cons_real. simpl. destruct (bytes_eqb k' k); [reflexivity|auto].
 Qed.
 
 Lemma ph_false_get k c : ph k c = false -> im_get k c <> Some INone.
@@ -254,18 +261,18 @@ Proof.
   unfold ph. induction c as [|[k' i] c IH]; simpl; intros H Hp; [reflexivity|].
   inversion H as [|? ? Hn Hc]; subst.
   destruct (bytes_eqb k' k) eqn:E.
-  - destruct i as [|q]; [discriminate|]. rewrite !abs_cons_real.
+  - destruct i as [|q]; [discriminate|]. rewrite ?abs_cons_real.
     rewrite om_insert_cons_eq; auto. apply bytes_eqb_eq in E. subst. intro Hin. apply abs_keys in Hin. tauto.
   - destruct i as [|q].
-    + rewrite !abs_cons_none. auto.
-    + rewrite !abs_cons_real. rewrite om_insert_cons_ne by assumption. f_equal. auto.
+    + rewrite ?abs_cons_none. auto.
+    + rewrite ?abs_cons_real. rewrite om_insert_cons_ne by assumption. f_equal. auto.
 Qed.
 
 Lemma abs_insert_none k c : im_get k c = None -> abs (im_insert k INone c) = abs c.
 Proof.
   induction c as [|[k' i] c IH]; simpl; intro H; [reflexivity|].
   destruct (bytes_eqb k' k); [discriminate|].
-  destruct i as [|q]; [rewrite !abs_cons_none|rewrite !abs_cons_real; f_equal]; auto.
+  destruct i as [|q]; [rewrite ?abs_cons_none|rewrite ?abs_cons_real; f_equal]; auto.
 Qed.
 
 Lemma abs_remove k c : NoDup (keys c) -> abs (im_shift_remove k c) = om_remove k (abs c).
@@ -275,51 +282,162 @@ Proof.
   destruct (bytes_eqb k' k) eqn:E.
   - apply bytes_eqb_eq in E. subst.
     assert (Hk : ~ In k (keys (abs c))) by (intro Hin; apply abs_keys in Hin; tauto).
-    destruct i as [|q]; [rewrite abs_cons_none|rewrite abs_cons_real, om_remove_cons, bytes_eqb_refl];
+    destruct i as [|q]; [rewrite ?abs_cons_none|rewrite ?abs_cons_real, om_remove_cons, bytes_eqb_refl];
       symmetry; apply om_remove_notin; assumption.
-  - destruct i as [|q]; [rewrite !abs_cons_none; auto|].
-    rewrite !abs_cons_real, om_remove_cons, E. f_equal. auto.
+  - destruct i as [|q]; [rewrite ?abs_cons_none; auto|].
+    rewrite ?abs_cons_real, om_remove_cons, E. f_equal. auto.
 Qed.
 
 Lemma abs_retain g g' c :
   (forall k p, g k (IReal p) = g' k p) -> abs (im_retain g c) = om_retain g' (abs c).
 Proof.
   intro Hg. unfold om_retain. induction c as [|[k' [|q]] c IH]; simpl; [reflexivity| |].
-  - rewrite abs_cons_none. destruct (g k' INone); [rewrite abs_cons_none|]; exact IH.
-  - rewrite abs_cons_real. simpl. rewrite <- Hg. destruct (g k' (IReal q)); [rewrite abs_cons_real; f_equal|]; exact IH.
+  - rewrite ?abs_cons_none. destruct (g k' INone); [rewrite ?abs_cons_none|]; exact IH.
+  - rewrite ?abs_cons_real. simpl. rewrite <- Hg. destruct (g k' (IReal q)); [rewrite ?abs_cons_real; f_equal|]; exact IH.
 Qed.
 
 Lemma abs_visible c : map kreal (abs c) = visible c.
 Proof.
   unfold visible. induction c as [|[k [|p]] c IH]; simpl; [reflexivity| |].
-  - rewrite abs_cons_none. exact IH.
-  - rewrite abs_cons_real. simpl. f_equal. exact IH.
+  - rewrite ?abs_cons_none. exact IH.
+  - rewrite ?abs_cons_real. simpl. f_equal. exact IH.
 Qed.
 
 Lemma abs_length c : length (abs c) = t_len c.
 Proof. unfold t_len. rewrite <- abs_visible, map_length. reflexivity. Qed.
 
-Lemma abs_extend l c :
+Lemma im_get_insert k p k2 (c0 : imap item) :
+  im_get k2 (im_insert k p c0) = if bytes_eqb k k2 then Some p else im_get k2 c0.
+Proof.
+  induction c0 as [|[k' i] c0 IH0]; simpl.
+  - destruct (bytes_eqb k k2); reflexivity.
+  - destruct (bytes_eqb k' k) eqn:E1; simpl.
+    + apply bytes_eqb_eq in E1. subst. destruct (bytes_eqb k k2); reflexivity.
+    + destruct (bytes_eqb k' k2) eqn:E2; [|exact IH0].
+      apply bytes_eqb_eq in E2. subst. rewrite bytes_eqb_sym, E1. reflexivity.
+Qed.
+
+Lemma abs_extend (n : pay -> pay) l c :
   NoDup (keys c) -> existsb (fun kv => ph (fst kv) c) l = false ->
-  abs (im_extend (map (fun kv => (fst kv, IReal (snd kv))) l) c)
-  = fold_left (fun acc kv => om_insert (fst kv) (snd kv) acc) l (abs c).
+  abs (im_extend (map (fun kv => (fst kv, IReal (n (snd kv)))) l) c)
+  = fold_left (fun acc kv => om_insert (fst kv) (n (snd kv)) acc) l (abs c).
 Proof.
   revert c. induction l as [|[k p] l IH]; simpl; intros c H Hp; [reflexivity|].
   apply orb_false_iff in Hp as [Hk Hl].
   rewrite IH.
   - rewrite abs_insert_real by assumption. reflexivity.
   - apply NoDup_insert. assumption.
-  - (* placeholders of c that are not k stay placeholders; k is none no more *)
+  - (* placeholders of c other than k stay placeholders; k is none no more *)
     clear IH. induction l as [|[k2 p2] l IHl]; simpl; [reflexivity|].
     simpl in Hl. apply orb_false_iff in Hl as [H2 Hl]. rewrite (IHl Hl), orb_false_r.
-    clear IHl Hl. unfold ph in *.
-    assert (G : forall c0 : imap item, im_get k2 (im_insert k (IReal p) c0) =
-                  if bytes_eqb k k2 then Some (IReal p) else im_get k2 c0).
-    { induction c0 as [|[k' i] c0 IH0]; simpl.
-      - destruct (bytes_eqb k k2); reflexivity.
-      - destruct (bytes_eqb k' k) eqn:E1; simpl.
-        + apply bytes_eqb_eq in E1. subst. destruct (bytes_eqb k k2); reflexivity.
-        + destruct (bytes_eqb k' k2) eqn:E2; [|exact IH0].
-          apply bytes_eqb_eq in E2. subst. rewrite bytes_eqb_sym, E1. reflexivity. }
-    rewrite G. destruct (bytes_eqb k k2); [reflexivity|]. exact H2.
+    clear IHl Hl. unfold ph in *. rewrite im_get_insert.
+    destruct (bytes_eqb k k2); [reflexivity|]. exact H2.
 Qed.
+(* ==================================================================================== *)
+(** * E. comparators are total preorders; small facts about items *)
+
+Lemma rank_leb_trans a b c : rank_leb a b = true -> rank_leb b c = true -> rank_leb a c = true.
+Proof. unfold rank_leb. lia. Qed.
+Lemma rank_leb_total a b : rank_leb a b = false -> rank_leb b a = true.
+Proof. unfold rank_leb. lia. Qed.
+
+Definition kasc_le (a b : bytes * item) : bool := key_leb (fst a) (fst b).
+
+Lemma kasc_trans {V} (a b c : bytes * V) :
+  key_leb (fst a) (fst b) = true -> key_leb (fst b) (fst c) = true -> key_leb (fst a) (fst c) = true.
+Proof. apply key_leb_trans. Qed.
+Lemma kasc_total {V} (a b : bytes * V) : key_leb (fst a) (fst b) = false -> key_leb (fst b) (fst a) = true.
+Proof. apply key_leb_total. Qed.
+
+Lemma tcmp_le_trans cm a b c : tcmp_le cm a b = true -> tcmp_le cm b c = true -> tcmp_le cm a c = true.
+Proof.
+  destruct cm; simpl.
+  - intros H1 H2. eapply key_leb_trans; eauto.
+  - apply rank_leb_trans.
+Qed.
+Lemma tcmp_le_total cm a b : tcmp_le cm a b = false -> tcmp_le cm b a = true.
+Proof. destruct cm; simpl; [apply key_leb_total|apply rank_leb_total]. Qed.
+
+Lemma as_value_is i : as_value i = if is_value i then Some i else None.
+Proof. reflexivity. Qed.
+
+Lemma icmp_le_alt cm a b :
+  icmp_le cm a b =
+  match is_value (snd a), is_value (snd b) with
+  | true, true => tcmp_le cm a b
+  | true, false => false
+  | false, _ => true
+  end.
+Proof.
+  unfold icmp_le. rewrite !as_value_is.
+  destruct (is_value (snd a)), (is_value (snd b)); destruct cm; reflexivity.
+Qed.
+
+Lemma icmp_le_trans cm a b c : icmp_le cm a b = true -> icmp_le cm b c = true -> icmp_le cm a c = true.
+Proof.
+  rewrite !icmp_le_alt.
+  destruct (is_value (snd a)), (is_value (snd b)), (is_value (snd c)); try congruence.
+  apply tcmp_le_trans.
+Qed.
+Lemma icmp_le_total cm a b : icmp_le cm a b = false -> icmp_le cm b a = true.
+Proof.
+  rewrite !icmp_le_alt.
+  destruct (is_value (snd a)), (is_value (snd b)); try congruence.
+  apply tcmp_le_total.
+Qed.
+
+Definition notab (i : item) : Prop := i <> IReal PTab.
+
+Lemma is_value_real q : q <> PTab -> is_value (IReal q) = true.
+Proof. destruct q; simpl; congruence. Qed.
+Lemma as_value_real q : q <> PTab -> as_value (IReal q) = Some (IReal q).
+Proof. intro H. unfold as_value. rewrite is_value_real; auto. Qed.
+Lemma into_value_real q : q <> PTab -> into_value (IReal q) = Some (IReal q).
+Proof. destruct q; simpl; congruence. Qed.
+Lemma hack_real q : q <> PTab -> hack (IReal q) = IReal q.
+Proof. intro H. unfold hack. rewrite into_value_real; auto. Qed.
+
+Lemma anyph_false_visible c : anyph c = false -> visible c = c.
+Proof.
+  unfold anyph, visible. induction c as [|[k i] c IH]; simpl; [reflexivity|].
+  intro H. apply orb_false_iff in H as [H1 H2]. rewrite H1. simpl. f_equal. auto.
+Qed.
+
+Lemma only_values_visible c : Forall (fun kv => notab (snd kv)) c -> only_values c = visible c.
+Proof.
+  unfold only_values, visible. induction c as [|[k i] c IH]; simpl; intro H; [reflexivity|].
+  inversion H as [|? ? Hi Hc]; subst. simpl in Hi. rewrite (IH Hc).
+  destruct i as [|[z| |]]; simpl; try reflexivity. exfalso. apply Hi. reflexivity.
+Qed.
+
+Lemma im_retain_ext {V} (g g2 : bytes -> V -> bool) c :
+  Forall (fun kv => g (fst kv) (snd kv) = g2 (fst kv) (snd kv)) c -> im_retain g c = im_retain g2 c.
+Proof.
+  induction c as [|[k i] c IH]; simpl; intro H; [reflexivity|].
+  inversion H as [|? ? Hi Hc]; subst. simpl in Hi. rewrite Hi, (IH Hc). reflexivity.
+Qed.
+
+Lemma emp_eq {A} (m : list A) : (match m with [] => true | _ => false end) = Nat.eqb (length m) 0.
+Proof. destruct m; reflexivity. Qed.
+
+Lemma norm_notab kd p : kd = KInline \/ kd = KInlineTL -> norm kd p <> PTab.
+Proof. intros [->| ->]; destruct p; simpl; congruence. Qed.
+
+Lemma existsb_ph_nil (l : list (bytes * pay)) : existsb (fun kv => ph (fst kv) []) l = false.
+Proof. induction l as [|x l IH]; simpl; [reflexivity|exact IH]. Qed.
+
+(* sorting commutes with abs *)
+Lemma abs_sort le le' c :
+  (forall a b c0, le a b = true -> le b c0 = true -> le a c0 = true) ->
+  (forall a b, le a b = false -> le b a = true) ->
+  forall Q : bytes * item -> Prop,
+  (forall a b y z, Q a -> Q b -> keep a = Some y -> keep b = Some z -> le' y z = le a b) ->
+  Forall Q c ->
+  abs (im_sort_by le c) = om_sort_by le' (abs c).
+Proof.
+  intros Ht Hto Q Hc HQ. unfold om_sort_by. rewrite im_sort_by_eq, !abs_pmap.
+  apply (pmap_stable_sort le le' keep Q Ht Hto Hc). exact HQ.
+Qed.
+
+Lemma keep_real a y : keep a = Some y -> a = (fst y, IReal (snd y)).
+Proof. destruct a as [k [|p]]; unfold keep; simpl; [discriminate|]. intro H. injection H as <-. reflexivity. Qed.
